@@ -41,6 +41,8 @@ def varint (n : Nat) : Bytes :=
   else 0xff :: leBytes 8 n
 
 structure BEnv where
+  /-- the environment knows the keys with id `< nKeys` -/
+  nKeys : Nat
   /-- 33-byte compressed encoding of a key id -/
   keyBytes : Key → Bytes
   /-- HASH160 of that encoding, as a big-endian number -/
@@ -145,9 +147,10 @@ def spkSer (env : BEnv) : Spk Nat → Bytes
 
 /-- Order key realising the lexicographic byte order of `spkBytes` (for hash values in range):
     `00 14 …` < `00 20 …` < `6a …`, equal forms by the big-endian hash value.  Injective on
-    P2WSH programs outright; on P2WPKH exactly when HASH160 is injective on the keys. -/
+    P2WSH programs outright; on P2WPKH when HASH160 is injective on the (finitely many) known keys
+    (`WfEnv`; ids the environment does not know get keys above every hash). -/
 def okeyB (env : BEnv) : Spk Nat → Nat
-  | .p2wpkh k => 3 * (env.keyHash160 k % 2 ^ 160)
+  | .p2wpkh k => if k < env.nKeys then 3 * (env.keyHash160 k % 2 ^ 160) else 3 * (2 ^ 160 + k)
   | .p2wsh h => 3 * (2 ^ 160 + h) + 1
   | .other n => 3 * (2 ^ 160 + 2 ^ 256 + n) + 2
 
@@ -156,20 +159,26 @@ def serIn (i : TxIn) : Bytes :=
 
 def serOut (env : BEnv) (o : TxOut Nat) : Bytes := leBytes 8 o.value ++ spkSer env o.spk
 
+/-- The HASH160 table is in range and collision-free on the known keys (decidable for a concrete
+    environment: finitely many keys). -/
+def wfEnv (env : BEnv) : Bool :=
+  (List.range env.nKeys).all fun k₁ => decide (env.keyHash160 k₁ < 2 ^ 160) &&
+    (List.range env.nKeys).all fun k₂ => decide (env.keyHash160 k₁ = env.keyHash160 k₂ → k₁ = k₂)
+
 /-- witness-less consensus serialisation -/
 def ser (env : BEnv) (tx : CTx Nat) : Bytes :=
   leBytes 4 tx.version ++ (varint tx.inputs.length ++ (tx.inputs.flatMap serIn ++
     (varint tx.outputs.length ++ (tx.outputs.flatMap (serOut env) ++ leBytes 4 tx.locktime))))
 
 /-- well-formed structured transaction: every field fits its wire width, no witness data -/
-def wfTx (tx : CTx Nat) : Bool :=
+def wfTx (env : BEnv) (tx : CTx Nat) : Bool :=
   decide (tx.version < 2 ^ 32) && decide (tx.locktime < 2 ^ 32) &&
   decide (tx.inputs.length ≤ 0xffff) && decide (tx.outputs.length ≤ 0xffff) &&
   tx.inputs.all (fun i => decide (i.txid < 2 ^ 256) && decide (i.vout < 2 ^ 32) && decide (i.sequence < 2 ^ 32) &&
     decide (i.scriptSig ≤ 1) && decide (i.witness = 0)) &&
   tx.outputs.all (fun o => decide (o.value < 2 ^ 64) &&
     match o.spk with
-    | .p2wpkh _ => true
+    | .p2wpkh k => decide (k < env.nKeys)
     | .p2wsh h => decide (h < 2 ^ 256)
     | .other n => decide (n < 2 ^ 64))
 
